@@ -620,7 +620,14 @@ func init() {
 	}
 	// outreal <streams> <messages each> <seed>: REAL library messages on several connections of one process
 	runners["outreal"] = func(a []string) string { return runOutboundReal(atoi(a[0]), atoi(a[1]), int64(atoi(a[2]))) }
+	// outloop <packets> <seed>: the whole loop of a reactive controller on ONE stream: packet-ins arrive, the consumer
+	// answers each with a packet-out carrying the received packet, the writer is slow
+	runners["outloop"] = func(a []string) string { return runOutLoop(atoi(a[0]), int64(atoi(a[1]))) }
 	families["C11"] = func(c *Ctx) {
+		if c.only == nil || c.only["outloop"] {
+			line := fmt.Sprintf("outloop %d %d", 160, c.rng.Intn(1000)+1)
+			c.emit(line, runIsolatedOnce(line))
+		}
 		for _, st := range []int{1, 2, 3, 8} {
 			line := fmt.Sprintf("outreal %d %d %d", st, 60, c.rng.Intn(1000)+1)
 			if c.only == nil || c.only["outreal"] {
@@ -718,6 +725,124 @@ func init() {
 			return fmt.Sprintf("differ %d", bad.Load())
 		}
 		return fmt.Sprintf("same %d", len(lines))
+	}
+	// concparse <goroutines> <seed>: g goroutines parse (and re-encode) the same set of frames — every switch-side kind of
+	// the independent encoder plus the library's own encodings of API-built top-level messages (flow-mods, bundle-adds
+	// wrapping them, vendor messages) — at the same time; every result must equal the sequential one
+	runners["concparse"] = func(a []string) string {
+		g := atoi(a[0])
+		seed := int64(atoi(a[1]))
+		sg := &swGen{r: newRand(seed)}
+		var frames [][]byte
+		for k := 0; k < swKinds; k++ {
+			for i := 0; i < 3; i++ {
+				fr, _ := sg.message(k)
+				frames = append(frames, fr)
+			}
+		}
+		ctx := &Ctx{rng: newRand(seed + 7), tier: "quick", stats: map[string]int{}, iso: true}
+		for _, gen := range ofGens {
+			gen(ctx)
+		}
+		n := 0
+		for _, l := range ctx.queue {
+			if !strings.HasPrefix(l, "api ") {
+				continue
+			}
+			p := strings.TrimPrefix(l, "api ")
+			if j := strings.LastIndex(p, ";!"); j > 0 && isTopLevel(p) {
+				if b := marshalProg(p[:j], p[j+2:]); len(b) >= 8 {
+					frames = append(frames, b)
+					n++
+				}
+			}
+			if n >= 150 {
+				break
+			}
+		}
+		// bundle-adds nested 1..6 deep around an echo request (a decoder that recurses into Parse)
+		for depth := 1; depth <= 6; depth++ {
+			prog := "m0=NewEchoRequest();$m0.Xid=77"
+			for d := 1; d <= depth; d++ {
+				prog += fmt.Sprintf(";a%d=BundleAdd(%d,x0000,3,~,[]);$a%d.Message=$m%d;m%d=NewBundleAdd($a%d);h%d=Header(4,4,8,%d);$m%d.Header=*$h%d",
+					d, d, d, d-1, d, d, d, 100+d, d, d)
+			}
+			if b := marshalProg(prog, fmt.Sprintf("m%d", depth)); len(b) >= 8 {
+				frames = append(frames, b)
+			}
+		}
+		one := func(fr []byte) string {
+			return guard(func() string {
+				outs := funcReg["Parse"].Call([]reflect.Value{reflect.ValueOf(append([]byte(nil), fr...))})
+				if !outs[1].IsNil() {
+					return "err"
+				}
+				if outs[0].IsNil() {
+					return "~"
+				}
+				b, ok := marshalOf(outs[0].Elem())
+				if !ok {
+					return dumpV(outs[0]) + " merr"
+				}
+				return dumpV(outs[0]) + " " + hx(b)
+			})
+		}
+		want := make([]string, len(frames))
+		for i, fr := range frames {
+			want[i] = one(fr)
+		}
+		var bad atomic.Int64
+		var first atomic.Int64
+		first.Store(-1)
+		var wg sync.WaitGroup
+		start := make(chan struct{})
+		for w := 0; w < g; w++ {
+			wg.Add(1)
+			go func(w int) {
+				defer wg.Done()
+				<-start
+				for r := 0; r < 2; r++ {
+					for i := range frames {
+						j := (i*7 + w*13 + r) % len(frames)
+						if one(frames[j]) != want[j] {
+							bad.Add(1)
+							first.CompareAndSwap(-1, int64(j))
+						}
+					}
+				}
+			}(w)
+		}
+		close(start)
+		wg.Wait()
+		// second phase: ALL goroutines decode the SAME frame at the same moment, frame after frame (many decodes of one
+		// kind in flight at once)
+		for j := range frames {
+			if bad.Load() > 0 {
+				break
+			}
+			gate := make(chan struct{})
+			var wg2 sync.WaitGroup
+			for w := 0; w < g; w++ {
+				wg2.Add(1)
+				go func() {
+					defer wg2.Done()
+					<-gate
+					for r := 0; r < 12; r++ {
+						if one(frames[j]) != want[j] {
+							bad.Add(1)
+							first.CompareAndSwap(-1, int64(j))
+						}
+					}
+				}()
+			}
+			close(gate)
+			wg2.Wait()
+		}
+		if bad.Load() > 0 {
+			j := first.Load()
+			return fmt.Sprintf("differ %d results differ from the sequential ones, e.g. frame %s: sequentially %.80s", bad.Load(), hx(frames[j]), want[j])
+		}
+		return fmt.Sprintf("same %d", len(frames))
 	}
 	// conclookup <goroutines> <seed>: concurrent registry lookups and generic builder calls with names in spellings the
 	// process has not seen before (random upper/lower case), compared with a sequential reference built from the
@@ -829,6 +954,12 @@ func init() {
 		if c.only == nil || c.only["concdhcp"] {
 			line := "concdhcp 16 2000"
 			c.emit(line, runIsolatedOnce(line))
+		}
+		for _, g := range []int{8, 64} {
+			if c.only == nil || c.only["concparse"] {
+				line := fmt.Sprintf("concparse %d %d", g, c.rng.Intn(100000))
+				c.emit(line, runIsolatedOnce(line))
+			}
 		}
 		for _, g := range []int{4, 16, 64} {
 			// in a process of its own: a data race on a Go map is a fatal error that cannot be recovered
@@ -1025,6 +1156,101 @@ func realMessage(s, k int, seed int64) util.Message {
 		e.Xid = tag
 		return e
 	}
+}
+
+type ofOnlyParser struct{}
+
+func (ofOnlyParser) Parse(b []byte) (util.Message, error) { return of.Parse(b) }
+
+// runOutLoop: n packet-in frames (payload: an Ethernet frame of an ethertype the library keeps as opaque bytes, an ARP
+// frame, or IPv4/UDP) arrive on a stream; for each delivered packet-in the consumer submits a packet-out whose Data is
+// the received packet (the object the parser built). What must appear on the wire for it is the encoding the message
+// had when it was submitted. The writer is slow, so messages wait in the queue while the inbound buffers are recycled.
+func runOutLoop(n int, seed int64) string {
+	rng := newRand(seed)
+	var in []byte
+	for k := 0; k < n; k++ {
+		var eth []byte
+		pay := make([]byte, 20+rng.Intn(60))
+		for i := range pay {
+			pay[i] = byte(k + 1)
+		}
+		switch k % 3 {
+		case 0: // experimental ethertype: opaque payload
+			eth = nb().hex("0102030405060a0b0c0d0e0f88b5").raw(pay).b
+		case 1: // IPv4 with an unknown protocol: opaque payload behind the IPv4 header
+			eth = nb().hex("0102030405060a0b0c0d0e0f0800").u8(0x45, 0).u16(20+len(pay), k, 0).u8(64, 253).u16(0).u32(0x0a000001, 0x0a000002).raw(pay).b
+		default: // IPv4 / UDP
+			eth = nb().hex("0102030405060a0b0c0d0e0f0800").u8(0x45, 0).u16(28+len(pay), k, 0).u8(64, 17).u16(0).u32(0x0a000001, 0x0a000002).u16(1000+k, 53, 8+len(pay), 0).raw(pay).b
+		}
+		body := nb().u32(0xffffffff).u16(len(eth)).u8(0, 0).q(uint64(k)).raw(msgMatchBytes(1)).z(2).raw(eth).b
+		in = append(in, ofFrame(10, uint32(k+1), body)...)
+	}
+	var chunks [][]byte
+	for rest := in; len(rest) > 0; {
+		cs := 1 + rng.Intn(900)
+		if cs > len(rest) {
+			cs = len(rest)
+		}
+		chunks = append(chunks, rest[:cs])
+		rest = rest[cs:]
+	}
+	conn := &lateConn{scriptConn: scriptConn{done: make(chan struct{}), chunks: chunks}, delay: 300 * time.Microsecond}
+	m := util.NewMessageStream(conn, ofOnlyParser{})
+	var want [][]byte
+	got := 0
+	timeout := time.After(20 * time.Second)
+	for got < n {
+		select {
+		case msg := <-m.Inbound:
+			pin, ok := msg.(*of.PacketIn)
+			if !ok {
+				return fmt.Sprintf("bad: delivered %T", msg)
+			}
+			po := of.NewPacketOut()
+			po.Xid = pin.Xid
+			po.InPort = 7
+			po.AddAction(of.NewActionOutput(uint32(got + 1)))
+			po.Data = &pin.Data
+			b, err := po.MarshalBinary()
+			if err != nil {
+				return "bad: packet-out does not encode"
+			}
+			want = append(want, append([]byte(nil), b...))
+			select {
+			case m.Outbound <- po:
+			case <-timeout:
+				return "timeout: outbound queue blocked"
+			}
+			got++
+		case err := <-m.Error:
+			return fmt.Sprintf("bad: stream error %v", err)
+		case <-timeout:
+			return fmt.Sprintf("timeout: %d of %d packet-ins delivered", got, n)
+		}
+	}
+	deadline := time.Now().Add(10 * time.Second)
+	for {
+		conn.mu.Lock()
+		k := len(conn.writes)
+		conn.mu.Unlock()
+		if k >= n {
+			break
+		}
+		if time.Now().After(deadline) {
+			return fmt.Sprintf("bad: %d of %d packet-outs written", k, n)
+		}
+		time.Sleep(time.Millisecond)
+	}
+	conn.mu.Lock()
+	ws := conn.writes
+	conn.mu.Unlock()
+	for k, w := range ws[:n] {
+		if !bytes.Equal(w, want[k]) {
+			return fmt.Sprintf("bad: packet-out %d on the wire is not the encoding the message had when it was submitted", k)
+		}
+	}
+	return fmt.Sprintf("ok %d", n)
 }
 
 func runOutboundReal(nstreams, nmsg int, seed int64) string {
